@@ -111,6 +111,28 @@ def run(tier, seed, opens):
     for k in range(0, maxseq + 1):
         for seq in itertools.product(small, repeat=k):
             one(list(seq))
+    # a script built in two parts (Script + Script, as the transaction reader does for witness items): the bytes of the sum - through every accessor -
+    # are the bytes of the joined item sequence, whether or not the parts had been serialised before
+    plain = [c for c in small if isinstance(c, int) or len(c) in (1, 2, 5, 75, 76)]
+    for a in plain:
+        for b in plain:
+            for pre in (False, True):
+                cases += 1
+                want = sp.serialize_commands([a, b])
+                try:
+                    sa, sb = Script([a]), Script([b])
+                    if pre:
+                        sa.as_bytes()
+                    sm = sa + sb
+                    got = (sm.as_bytes(), sm.serialize(), bytes.fromhex(sm.as_hex()))
+                except Exception as e:
+                    got = 'raises %s: %s' % (type(e).__name__, str(e)[:80])
+                if got == (want, want, want):
+                    ok += 1
+                elif len(failed) < 5:
+                    failed.append({'input': {'left': show([a]), 'right': show([b]), 'left_serialised_before': pre},
+                                   'observed': repr(tuple(x.hex() for x in got) if isinstance(got, tuple) else got)[:300], 'expected': want.hex(), 'confirmed': True,
+                                   'obligation': 'Script.parse_bytesio/serialize#bounded', 'what': 'Script + Script'})
     res = {'contract': 'bitcoinlib.scripts.Script.parse_bytesio[bounded]', 'target': 'bitcoinlib.scripts.Script.parse_bytesio, Script.serialize',
            'status': 'ok',
            'bounded': 'single data items of %d lengths x 7 fills in 4 contexts, and all sequences of <= %d items over a %d-item alphabet'
